@@ -7,6 +7,7 @@ CONSTANTS
   MaxOps = 3
   ExportOps = 2
   RequestStateKeptAcrossLines = FALSE
+  ConnectionRemembersToken = FALSE
   VerifierRemembersTokens = FALSE
   RedactNeedsTLSRecord = FALSE
   KeyFamily = "cover"
